@@ -395,6 +395,14 @@ def sched_phase(pid, tier, runs=None):
     cases, cases_total = distinct(binary, [os.path.join(workdir, "shard%02d.json.cases" % k) for k in range(njobs)])
     scheds, scheds_total = distinct(binary, [os.path.join(workdir, "shard%02d.json.scheds" % k) for k in range(njobs)])
     new, known_hits, herr = triage(binary, pid, violations, seed)
+    # the digest files are large in the thorough tier (8 bytes per run / case / schedule): drop them
+    for k in range(njobs):
+        for ext in (".cases", ".scheds", ".runs"):
+            try:
+                os.remove(os.path.join(workdir, "shard%02d.json%s" % (k, ext)))
+            except OSError:
+                pass
+    shutil.rmtree(spot_dir, ignore_errors=True)
     c = agg["counters"]
     coverage = {
         "evaluations": agg["executions"] + agg["sequential_checks"],
